@@ -171,6 +171,19 @@ fn main() {
         let s = json!({"k":"rrect","r":[0, 0, rng.u32r(0, m), rng.u32r(0, m)],"radii":radii});
         run_case(&mut rec, &json!({"t":"confine","shape":s}));
     }
+    // display-scale rectangles with huge radii ("pills"): the products radius x side are near and beyond 2^32
+    for (w, h) in [(500u32, 400u32), (300, 40), (40, 300), (1024, 1024), (1000, 3), (64, 64)] {
+        for r in [100_000u32, 1_000_000, 4_300_000, 5_000_000, 8_400_000, 10_000_000, 60_000_000, 107_000_000, 1_000_000_000] {
+            if (r as u64) * (w.max(h) as u64) >= (1u64 << 32) {
+                // beyond this the library's final scaling `radius * side` does not fit u32 (not display scale)
+                continue;
+            }
+            for (k, radii) in [json!([[r, r], [r, r], [r, r], [r, r]]), json!([[r, 1], [3, r], [r, r / 2], [0, 0]]), json!([[r, r], [0, 0], [r, r], [0, 0]])].iter().enumerate() {
+                let s = json!({"k":"rrect","r":[k as i32, -3, w, h],"radii":radii});
+                run_case(&mut rec, &json!({"t":"confine","shape":s}));
+            }
+        }
+    }
     // arcs and sectors on an angle grid
     let ds: Vec<u32> = if th { (1..=24).chain([31, 32, 33, 47, 48, 63, 64, 65, 96, 127, 128]).collect() } else { vec![1, 2, 3, 4, 5, 6, 7, 8, 9, 10, 11, 12, 31, 32, 64] };
     let step = if th { 1 } else { 5 };
